@@ -404,3 +404,50 @@ def general_string_number_xpath1(i0: int, b: int, swap: bool) -> bool:
         if got is not want:
             return False
     return True
+
+
+# --- added after round-4 seeded changes: sub-millisecond durations; timezone offsets below one hour (negative too) in comparisons -----------
+
+from elementpath.datatypes import DateTime as _DT7, Timezone as _TZ7  # noqa: E402
+import datetime as _dtm  # noqa: E402
+FRACS = ('0.0001', '0.0007', '0.000001', '0.000002', '0.5')
+TV_STR = {k: P31.parse('xs:dayTimeDuration($a) %s xs:dayTimeDuration($b)' % k) for k in OPS}
+TV_DT = {k: P31.parse('xs:dateTime($a) %s xs:dateTime($b)' % k) for k in OPS}
+OFFS = ('-00:30', '+00:30', '-00:01', '+00:01', '-00:59', 'Z', '-01:00', '+14:00')
+_OFFMIN = {'-00:30': -30, '+00:30': 30, '-00:01': -1, '+00:01': 1, '-00:59': -59, 'Z': 0, '-01:00': -60, '+14:00': 840}
+
+
+@ob(budget=300, bound='two xs:dayTimeDuration values PT<f>S (the first optionally negated) with f from a table of 5 fractions down to one microsecond (indices and '
+                      'signs chosen by the solver): the six value comparisons follow the numeric order of the seconds',
+    funcs=['elementpath/datatypes/datetime.py:Duration._compare_durations', O2 + ':value comparisons'])
+def duration_order_subsecond(i: int, j: int, ni: bool) -> bool:
+    """
+    pre: 0 <= i <= 4 and 0 <= j <= 4
+    post: _
+    """
+    fa, fb = FRACS[[k for k in range(5) if k == i][0]], FRACS[[k for k in range(5) if k == j][0]]
+    a, b = ('-' if ni else '') + 'PT' + fa + 'S', 'PT' + fb + 'S'
+    x, y = Decimal(fa) * (-1 if ni else 1), Decimal(fb)
+    for k, f in OPS.items():
+        r = TV_STR[k].evaluate(XPathContext(item=1, variables={'a': a, 'b': b}))
+        if _one(r) is not f(x, y):
+            return False
+    return True
+
+
+@ob(budget=200, bound='xs:dateTime 2000-01-01T12:00:00 with two timezone designators from a table of 8 (sub-hour negative and positive offsets, Z, -01:00, '
+                      '+14:00; indices chosen by the solver): the six value comparisons order the values as instants (later offset = earlier instant)',
+    funcs=['elementpath/datatypes/datetime.py:Timezone.fromstring', 'elementpath/datatypes/datetime.py:AbstractDateTime._compare'])
+def timezone_offsets_in_comparisons(i: int, j: int) -> bool:
+    """
+    pre: 0 <= i <= 7 and 0 <= j <= 7
+    post: _
+    """
+    oa, ob_ = OFFS[[k for k in range(8) if k == i][0]], OFFS[[k for k in range(8) if k == j][0]]
+    a, b = '2000-01-01T12:00:00' + oa, '2000-01-01T12:00:00' + ob_
+    x, y = -_OFFMIN[oa], -_OFFMIN[ob_]          # instant in minutes relative to 12:00Z
+    for k, f in OPS.items():
+        r = TV_DT[k].evaluate(XPathContext(item=1, variables={'a': a, 'b': b}))
+        if _one(r) is not f(x, y):
+            return False
+    return True
